@@ -58,6 +58,26 @@ CLAIMS = {
             "technique": "stall sweep under a deterministic scheduler: writer parked at every scheduling point / inside its user function while generated lookups run alone",
             "text": "For generated (writer call, lookups) pairs on all four containers the writer is suspended at each of its atomic/lock operations in turn (incl. mid-resize, mid-Clear, inside Compute's user function) and the lookups must complete without blocking, spinning or exceeding a bound on their own steps, returning linearizable results.",
             "note": E2_NOTE + " The own-step bound is a concrete number (4x quiescent cost + 64); lookups of expired keys are excluded as in the property."},
+    "C10": {"engine": "E3", "design_ref": "DESIGN.md section 4 C10",
+            "technique": "differential property testing against builtin map[K]V over a catalogue of key types with equal-but-differently-represented keys",
+            "text": "For 19 comparable key types incl. interface-typed keys holding pointers, nil pointers and the nil interface, padded structs with dirty padding, signed zeros: generated call sequences on MapOf/CacheOf (default and fully colliding hashers) compared call by call with a builtin map; no valid key may panic.",
+            "note": "Sequential; NaN excluded (not equal to itself); the per-process hash key is varied by running several processes, not enumerated."},
+    "C11": {"engine": "E1", "design_ref": "DESIGN.md section 4 C11",
+            "technique": "differential/metamorphic property testing: one generated call sequence on instances with different size hints, table seeds and hashers, plus a reference map model",
+            "text": "Long generated sequences crossing every grow/shrink threshold on instances that differ only in size hint, table seeds and hasher must return identical results and leave identical contents, equal to a reference map.",
+            "note": "Sequential; table seeds are part of the generated case (pinned through the rewritten runtime.fastrand), the per-process hash key varies across shard processes."},
+    "C12": {"engine": "E1", "design_ref": "DESIGN.md section 4 C12",
+            "technique": "differential property testing of the copy-edited twins under one generated program and a shared virtual clock",
+            "text": "Cache vs CacheOf[string,interface{}] and Map vs MapOf[string,interface{}] executed in lock-step on generated programs, constructor variants and clock schedules; all observable results, callbacks and contents deeply equal.",
+            "note": "Sequential (concurrent behaviour of each twin is decided by C02-C04); values are comparable with reflect.DeepEqual."},
+    "C14": {"engine": "E3", "design_ref": "DESIGN.md section 4 C14",
+            "technique": "generated parallel programs executed natively under the Go race detector with payload-checksum oracle",
+            "text": "Generated parallel programs (2-64 goroutines, six op-mix profiles incl. settings churn, janitor, Range under write, clear/resize churn) on all four containers under -race; every value read back must be a fully initialised payload.",
+            "note": "Native OS scheduling, not reproducible by seed; the race detector only sees races that happen in the runs made."},
+    "C15": {"engine": "E3", "design_ref": "DESIGN.md section 4 C15",
+            "technique": "generated configurations run in real time: Count polling, callback ledger, goroutine count and finalizer sentinel after GC",
+            "text": "Generated constructor/interval/population configurations: automatic cleanup within a bounded number of intervals without user calls, no cleanup and no goroutine when not configured, janitor goroutines and contents gone after the caches are dropped.",
+            "note": "Real time with wide margins; a deadline missed once is re-run, only a repeated miss is reported."},
     "C13": {"engine": "E2", "design_ref": "DESIGN.md section 4 C13",
             "technique": "deadlock / no-progress detection by a deterministic scheduler over generated programs and schedules",
             "text": "Bounded liveness: under every explored schedule no call is unfinished when nothing can run (deadlock, lost wake-up, leaked lock) and no execution exceeds 60x its non-preemptive step count; callbacks and visitors re-enter the container; quiescent read-back takes every bucket lock.",
